@@ -19,7 +19,14 @@ Qed.
 
 (* what of a check definition is the agent's: everything except ServiceName / ServiceTags
    (copied by the catalog from its service row) and an empty status (defaulted to critical) *)
-Definition chk_core (d : chk) : N * N * N * N := (ck_sid d, status_default (ck_status d), ck_out d, ck_rest d).
+Definition chk_core_upto (blank : bool) (d : chk) : N * N * N * N :=
+  (ck_sid d, status_default (ck_status d), if blank then 0%N else ck_out d, ck_rest d).
+Definition chk_core (d : chk) : N * N * N * N := chk_core_upto false d.
+(* neither contains [ck_aux]: the catalog stores it, but HealthCheck.IsSame never looks at it, so
+   "held" in the sense the agent can establish cannot include it (C16_ignored_fields_refuted) *)
+
+Lemma chk_core_weaken b r d : chk_core r = chk_core d -> chk_core_upto b r = chk_core_upto b d.
+Proof. unfold chk_core, chk_core_upto. intros [= E1 E2 E3 E4]. rewrite E1, E2, E3, E4. reflexivity. Qed.
 
 Lemma status_default_idem s : status_default (status_default s) = status_default s.
 Proof. unfold status_default. destruct (N.eqb_spec s 0) as [->|E]; [reflexivity|]. destruct (N.eqb_spec s 0); [contradiction|reflexivity]. Qed.
@@ -28,7 +35,7 @@ Lemma stamp_Some svcs d r :
   stamp svcs d = Some r ->
   chk_core r = chk_core d /\ (ck_sid d = 0%N \/ is_Some (svcs !! ck_sid d)).
 Proof.
-  unfold stamp, chk_core. destruct (N.eqb_spec (ck_sid d) 0) as [E|E].
+  unfold stamp, chk_core, chk_core_upto. destruct (N.eqb_spec (ck_sid d) 0) as [E|E].
   - intros [= <-]. cbn. rewrite status_default_idem. auto.
   - destruct (svcs !! ck_sid d) eqn:L; [|discriminate]. intros [= <-]. cbn. rewrite status_default_idem.
     split; [reflexivity|eauto].
@@ -42,7 +49,7 @@ Proof.
 Qed.
 
 Lemma stamp_sid svcs d r : stamp svcs d = Some r -> ck_sid r = ck_sid d.
-Proof. intros H. apply stamp_Some in H as [H _]. unfold chk_core in H. congruence. Qed.
+Proof. intros H. apply stamp_Some in H as [H _]. unfold chk_core, chk_core_upto in H. congruence. Qed.
 
 Lemma reg_svcs_lookup sv (m : gmap N svc) k :
   reg_svcs sv m !! k = match sv with
@@ -208,8 +215,8 @@ Qed.
 Lemma uss_chks_lookup g st c k :
   l_chks (uss_apply g st c) !! k =
   if decide (g_serf g = k)
-  then match l_chks st !! k with None => None | Some _ => uss_chk (l_chks st !! k) (c_chks c !! k) end
-  else uss_chk (l_chks st !! k) (c_chks c !! k).
+  then match l_chks st !! k with None => None | Some _ => uss_chk (g_interval g) (l_chks st !! k) (c_chks c !! k) end
+  else uss_chk (g_interval g) (l_chks st !! k) (c_chks c !! k).
 Proof.
   cbn. rewrite exempt_lookup, lookup_merge.
   destruct (decide (g_serf g = k)) as [->|Hne].
